@@ -170,13 +170,12 @@ Definition left_o (r : Z) (o : output) : list msg :=
 Definition subm (r : Z) (tr : list output) : list msg := flat_map (subm_o r) tr.
 (* confirmable messages to r that left the queue (first transmission, or discarded), in order *)
 Definition left (r : Z) (tr : list output) : list msg := flat_map (left_o r) tr.
-(* an internal error of the message layer; the TypeError of pipe.py (finding C14-R3) is raised outside it *)
-Definition is_crash (o : output) : bool := match o with Crash TypeError => false | Crash _ => true | _ => false end.
+Definition is_crash (o : output) : bool := match o with Crash _ => true | _ => false end.
 Definition nocrash (tr : list output) : bool := forallb (fun o => negb (is_crash o)) tr.
 (* outputs that say nothing about queues *)
 Definition neutral (o : output) : bool :=
   match o with
-  | Tx _ true | TxEmpty _ _ _ | Fired _ _ | Deliver _ | Fail _ _ | Cancelled _ | Monitor _ | Ended _ | Crash TypeError => true
+  | Tx _ true | TxEmpty _ _ _ | Fired _ _ | Deliver _ | Fail _ _ | Cancelled _ | Monitor _ | Ended _ => true
   | _ => false
   end.
 
@@ -186,7 +185,7 @@ Lemma nocrash_app a b : nocrash (a ++ b) = nocrash a && nocrash b. Proof. apply 
 Lemma neutral_logs r o : forallb neutral o = true -> subm r o = [] /\ left r o = [] /\ nocrash o = true.
 Proof. induction o as [|x o IH]; [cbn; auto|]. cbn [forallb]. intros H. apply andb_prop in H. destruct H as [H1 H2].
   destruct (IH H2) as (A & B & C). unfold subm, left, nocrash in *. cbn [flat_map forallb]. rewrite A, B, C.
-  destruct x; try discriminate; cbn; auto; [destruct retr; [cbn; auto|discriminate]|destruct e; try discriminate; cbn; auto]. Qed.
+  destruct x; try discriminate; cbn; auto. destruct retr; [cbn; auto|discriminate]. Qed.
 
 Lemma left_dropped_same r q : Forall (fun m => con_to r m = true) q -> left r (map Dropped q) = q.
 Proof. induction 1 as [|m q H _ IH]; [reflexivity|]. unfold left in *. cbn. rewrite H, IH. reflexivity. Qed.
@@ -462,10 +461,9 @@ Lemma respond_trans send : (forall who r mt code tok maxre s, Inv s -> Trans s (
 Proof. intros Hs j k last maxre s HI. unfold respond. destruct (find _ (incoming_requests s)) as [v|]; [|apply trans_refl; exact HI].
   pose proof (Hs (Resp j k) (v_remote v) (if v_mtype v =? 1 then 7 else 8) 69 (v_tok v) maxre s HI) as T.
   destruct (send _ _ _ _ _ _ s) as [s1 o1]. cbn [fst snd] in T.
-  destruct last; destruct (alive k s1); cbn [fst snd]; try exact T.
-  - destruct (stop_responder_frame k s1) as (A & B & _ & N). destruct (stop_responder k s1) as [s2 o2]. cbn [fst snd] in *.
-    apply (trans_neutral s o1 s1); assumption.
-  - apply (trans_neutral s o1 s1); [exact T|reflexivity|reflexivity|reflexivity]. Qed.
+  destruct last; [|exact T]. destruct (alive k s1); cbn [fst snd]; [|exact T].
+  destruct (stop_responder_frame k s1) as (A & B & _ & N). destruct (stop_responder k s1) as [s2 o2]. cbn [fst snd] in *.
+  apply (trans_neutral s o1 s1); assumption. Qed.
 
 Theorem step_trans s e : Inv s -> Trans s (snd (step s e)) (fst (step s e)).
 Proof. intros HI. destruct e; cbn [step].
@@ -509,12 +507,12 @@ Theorem reachable_fifo a b c es r :
   subm r (concat (snd (run (init a b c) es))) = left r (concat (snd (run (init a b c) es))) ++ backlog_of r (fst (run (init a b c) es)).
 Proof. apply (run_inv_fifo es (init a b c) []); [apply inv_init|reflexivity|reflexivity]. Qed.
 
-Lemma nocrash_in o e : nocrash o = true -> e <> TypeError -> ~ In (Crash e) o.
-Proof. intros N He H. unfold nocrash in N. rewrite forallb_forall in N. specialize (N _ H). destruct e; try discriminate. congruence. Qed.
+Lemma nocrash_in o e : nocrash o = true -> ~ In (Crash e) o.
+Proof. intros N H. unfold nocrash in N. rewrite forallb_forall in N. specialize (N _ H). discriminate. Qed.
 
-Theorem reachable_nocrash a b c es e : e <> TypeError -> ~ In (Crash e) (concat (snd (run (init a b c) es))).
-Proof. intros He H. assert (N : nocrash (concat (snd (run (init a b c) es))) = true) by (apply (run_inv_fifo es (init a b c) []); [apply inv_init|reflexivity|reflexivity]).
-  exact (nocrash_in _ e N He H). Qed.
+Theorem reachable_nocrash a b c es e : ~ In (Crash e) (concat (snd (run (init a b c) es))).
+Proof. intros H. assert (N : nocrash (concat (snd (run (init a b c) es))) = true) by (apply (run_inv_fifo es (init a b c) []); [apply inv_init|reflexivity|reflexivity]).
+  exact (nocrash_in _ e N H). Qed.
 
 Theorem one_exchange_per_remote a b c es r :
   let s := fst (run (init a b c) es) in
